@@ -269,6 +269,84 @@ def ob_instances(ctx):
     return True
 
 
+_FRESH_QUERY = r'''
+import sys, json, warnings
+warnings.filterwarnings("ignore")
+sys.path.insert(0, "/verif")
+from symx import loader
+st = loader.real_stack()
+q = json.loads(sys.argv[1])
+K = getattr(st.kit(q["kit"]), q["cls"])
+rec = (st.record.CircularRecord if q["kind"] == "circular" else st.SeqRecord)(st.Seq(q["seq"]), id="rec")
+e = K(rec)
+out = {"valid": bool(e.is_valid())}
+if out["valid"]:
+    out["start"], out["end"] = str(e.overhang_start()), str(e.overhang_end())
+print("RESULT " + json.dumps(out))
+'''
+
+
+def _fresh_answer(ctx, P, data, kind):
+    """the same query asked first thing in a fresh interpreter: on the symbolic stack a freshly loaded copy of the
+    repository's modules (new class objects, pristine class-level state); on the real stack a new Python process"""
+    st = ctx.stack
+    if st.kind == "sym":
+        from symx import loader
+
+        st2 = loader.sym_stack(fresh=True)
+        K2 = kit_class(st2, P["kit"], P["cls"])
+        rec2 = (st2.record.CircularRecord if kind == "circular" else st2.SeqRecord)(st2.Seq(data), id="rec")
+        e2 = K2(rec2)
+        v2 = e2.is_valid()
+        return (v2, e2.overhang_start(), e2.overhang_end()) if v2 else (v2, None, None)
+    import json
+    import os
+    import subprocess
+    import sys as _sys
+
+    q = json.dumps(dict(kit=P["kit"], cls=P["cls"], kind=kind, seq=str(data)))
+    r = subprocess.run([_sys.executable, "-c", _FRESH_QUERY, q], capture_output=True, text=True, timeout=120,
+                       env=dict(os.environ, PYTHONHASHSEED="0"))
+    line = [l for l in r.stdout.splitlines() if l.startswith("RESULT ")]
+    if not line:
+        raise RuntimeError("fresh interpreter query failed: " + r.stderr[-400:])
+    out = json.loads(line[0][7:])
+    return out["valid"], out.get("start"), out.get("end")
+
+
+def ob_fresh_interpreter(ctx):
+    """after other records (among them one declared linear) have been validated against the class and its relatives,
+    the class answers a query exactly as a fresh interpreter does"""
+    st = ctx.stack
+    P = ctx.P
+    n = P["n"]
+    K = kit_class(st, P["kit"], P["cls"])
+    inst = concrete_instance(K.structure(), n)
+    # history: a linear record, a circular one, a junk one, against the class and against its bases
+    for C in [K] + [B for B in K.__mro__[1:4] if hasattr(B, "structure") and not is_abstract(B)]:
+        for hist in (st.SeqRecord(st.Seq(inst), id="h-lin", annotations={"topology": "linear"}),
+                     st.record.CircularRecord(st.Seq(inst[3:] + inst[:3]), id="h-circ"),
+                     st.SeqRecord(st.Seq("ACGT" * 5), id="h-junk")):
+            try:
+                C(hist).is_valid()
+            except Exception:
+                pass
+    r = ctx.mk.seq("r", n, "ACGT")
+    kind = P["kind"]
+    rec = (st.record.CircularRecord if kind == "circular" else st.SeqRecord)(st.Seq(r), id="rec")
+    e = K(rec)
+    v = e.is_valid()
+    ctx.observe("valid", v)
+    v2, s2, e2 = _fresh_answer(ctx, P, r, kind)
+    ctx.require(v == v2, "verdict-differs-from-a-fresh-interpreter")
+    ctx.witness("accepted" if v else "rejected")
+    if v:
+        ctx.require(seq_eq(e.overhang_start(), s2) and True, "overhang_start-differs-from-a-fresh-interpreter")
+        ctx.require(seq_eq(e.overhang_end(), e2), "overhang_end-differs-from-a-fresh-interpreter")
+        ctx.witness("match-wraps-origin", ival(e._match.end()) > n)
+    return True
+
+
 def ob_entry_point(ctx):
     """the kit-level entry point Cls.characterize(record) on a concrete type answers the same whether the type is asked
     first thing or after it has validated other records (two identical types declared in this very call, one per history)"""
@@ -332,6 +410,13 @@ def obligations(tier, seed):
             obs.append(Ob("instances %s.%s n=%d typed %s first" % (kit, name, F + 1, first), ob_instances,
                           dict(kit=kit, cls=name, n=F + 1, first=first), samples=4, cost=3 * (F + 1) ** 3, group="instances",
                           expect_witness=("accepted-circular",)))
+    for kit, name in tier_pick(tier, [("ytk", "YTKPart1")], [("ytk", "YTKPart1"), ("cidar", "CIDAREntry"), ("ytk", "YTKEntryVector")]):
+        F = fixed_letters(kit_class(st, kit, name).structure())
+        for kind in ("plain", "circular"):
+            obs.append(Ob("%s.%s n=%d on a %s record, after other validations vs in a fresh interpreter" % (
+                kit, name, F + 1, "plain SeqRecord (no topology annotation)" if kind == "plain" else "CircularRecord"),
+                ob_fresh_interpreter, dict(kit=kit, cls=name, n=F + 1, kind=kind), samples=3, cost=3 * (F + 1) ** 3,
+                group="fresh interpreter", expect_witness=("accepted", "rejected", "match-wraps-origin")))
     for role, sig in tier_pick(tier, [("module", ("AATG", "NNNN"))], [("module", ("AATG", "NNNN")), ("vector", ("NNNN", "GCTT"))]):
         F = fixed_letters(generic_class(st, role, "BsaI").structure())
         obs.append(Ob("entry point characterize on a concrete %s type, asked first vs after other validations n=%d" % (role, F + 1),
